@@ -7,7 +7,7 @@ from vp.h import Vector, Table, DataType, infer_dtype
 
 H.standard_env()
 ASSUMPTIONS = [
-    'element VALUES come from a menu of representatives {None, True, 2, 2.5, "x", -3, 0, 1+1j, date, datetime}; which element sits where is a '
+    'element VALUES come from a menu of representatives {None, True, 2, 2.5, "x", False, -3, 0, 1+1j, date, datetime}; which element sits where is a '
     'solver variable (symbolic index), so every combination within the stated length is covered and CONFIRMED means z3 found no combination left; '
     'once the indices are decided the (now fully concrete) serif calls run with tracing off (same result, ~20x cheaper)',
     'value-dependent typing (int ** negative int -> float, bool + bool -> int) is covered by C05 with symbolic ints',
@@ -16,7 +16,7 @@ ASSUMPTIONS = [
 ]
 
 U = Union[None, bool, int, float]
-MENU = [None, True, 2, 2.5, 'x', -3, 0, 1 + 1j, date(2020, 1, 2), datetime(2020, 1, 2, 3, 4)]
+MENU = [None, True, 2, 2.5, 'x', False, -3, 0, 1 + 1j, date(2020, 1, 2), datetime(2020, 1, 2, 3, 4)]
 ML = H.cfg('menu', 6)
 
 _BIN = {'add': operator.add, 'sub': operator.sub, 'mul': operator.mul, 'truediv': operator.truediv,
@@ -278,7 +278,7 @@ UN = ['neg', 'pos', 'abs', 'invert', 'dropna', 'isna', 'to_object', 'unique', 's
 def obligations(tier):
     q = tier == 'quick'
     M1 = len(MENU)
-    M2 = 5 if q else 7
+    M2 = 6 if q else 8
     bud = 90 if q else 600
     obs = []
     for op in BIN_OPS:
